@@ -498,11 +498,9 @@ theorem issueValid_init_le {owner symbol name minUnit : String} {scale init max 
   simp only [Bool.and_eq_true, decide_eq_true_eq] at h
   exact h.1.2
 
-/-- **C09(3a)** one accepted issue / edit / mint / burn / hand-over keeps every token within its
-cap — provided the edit does not fall into the class of F-tok-1 (a new maximum while the
-circulating amount is not a whole number of main units) -/
-theorem good_step_partial (s s' : State) (op : Op) (h : Good s) (hop : isC09Op op = true)
-    (hf : inFTok1 s op = false) (hs : step s op = .ok s') : Good s' := by
+/-- **C09(3a)** one accepted issue / edit / mint / burn / hand-over keeps every token within its cap -/
+theorem good_step (s s' : State) (op : Op) (h : Good s) (hop : isC09Op op = true)
+    (hs : step s op = .ok s') : Good s' := by
   have hwf' := wf_step s s' op h.wf hs
   cases op with
   | issue owner symbol name minUnit scale init max mintable =>
@@ -553,15 +551,8 @@ theorem good_step_partial (s s' : State) (op : Op) (h : Good s) (hop : isC09Op o
       show supplyOf s t.minUnit ≤ (if 0 < max then max else t.maxSupply) * pow10 t.scale
       by_cases hmax : 0 < max
       · simp only [hmax, if_true]
-        simp only [inFTok1, tokenBySymbol, ht, hmax, decide_true, Bool.true_and, decide_eq_false_iff_not,
-          Decidable.not_not] at hf
-        have hq : supplyOf s t.minUnit / pow10 t.scale ≤ max := by
-          have : ¬ (max < supplyOf s t.minUnit / pow10 t.scale) := fun hc => hm ⟨hmax, hc⟩
-          omega
-        have hdm := Nat.div_add_mod (supplyOf s t.minUnit) (pow10 t.scale)
-        rw [hf, Nat.add_zero] at hdm
-        rw [← hdm, Nat.mul_comm]
-        exact Nat.mul_le_mul_right _ hq
+        have : ¬ (max * pow10 t.scale < supplyOf s t.minUnit) := fun hc => hm ⟨hmax, hc⟩
+        omega
       · simp only [hmax, if_false]; exact hcap
     · simp only [hk, if_false] at ht2
       exact h.cap sym2 t2 ht2
@@ -617,23 +608,21 @@ theorem good_step_partial (s s' : State) (op : Op) (h : Good s) (hop : isC09Op o
   | evmFault _ => cases hop
   | updateParams _ _ => cases hop
 
-theorem good_apply_partial (s : State) (op : Op) (h : Good s) (hop : isC09Op op = true)
-    (hf : inFTok1 s op = false) : Good (apply s op) := by
+theorem good_apply (s : State) (op : Op) (h : Good s) (hop : isC09Op op = true) : Good (apply s op) := by
   unfold apply
   cases hs : step s op with
-  | ok s' => exact good_step_partial s s' op h hop hf hs
+  | ok s' => exact good_step s s' op h hop hs
   | error e => exact h
 
 /-- **C09(3b)** over every history of issue / edit / mint / burn / hand-over by anyone, at every
-scale and amount: every token stays within `maxSupply · 10^scale`, as long as no edit of the
-history falls into the class of F-tok-1 -/
-theorem cap_run_partial (s : State) (ops : List Op) (h : Good s) (hops : ∀ op ∈ ops, isC09Op op = true)
-    (hf : noFTok1 s ops) : Good (run s ops) := by
+scale and amount: every token stays within `maxSupply · 10^scale` -/
+theorem cap_run (s : State) (ops : List Op) (h : Good s) (hops : ∀ op ∈ ops, isC09Op op = true) :
+    Good (run s ops) := by
   induction ops generalizing s with
   | nil => exact h
   | cons op rest ih =>
-    exact ih (apply s op) (good_apply_partial s op h (hops op (List.mem_cons_self ..)) hf.1)
-      (fun o ho => hops o (List.mem_cons_of_mem _ ho)) hf.2
+    exact ih (apply s op) (good_apply s op h (hops op (List.mem_cons_self ..)))
+      (fun o ho => hops o (List.mem_cons_of_mem _ ho))
 
 /-- a genesis whose only circulating denomination is the native token, within its cap -/
 theorem good_genesis (bank : Bank) (p : Params) (env : Env)
@@ -659,36 +648,9 @@ theorem good_genesis (bank : Bank) (p : Params) (env : Env)
 def CapAlways : Prop :=
   ∀ (s : State) (ops : List Op), Good s → (∀ op ∈ ops, isC09Op op = true) → CapInv (run s ops)
 
-/-- the witness of F-tok-1: issue 2.0 (scale 1), burn 0.5, then set the maximum to 1 -/
-def witnessState : State :=
-  genesis { bal := [(("A0", "stake"), 100000)], supply := [("stake", 100000)] } {} {}
-
-def witnessOps : List Op :=
-  [.issue "A0" "abc" "n1" "uabc" 1 2 2 false, .burn "A0" "uabc" 5, .edit "A0" "abc" "[do-not-modify]" 1 ""]
-
-theorem witness_outcome :
-    supplyOf (run witnessState witnessOps) "uabc" = 15 ∧
-    (AMap.get? (run witnessState witnessOps).tokens "abc").map (fun t => (t.minUnit, t.maxSupply, t.scale))
-      = some ("uabc", 1, 1) := by
-  decide +kernel
-
-/-- **F-tok-1** the full statement is false of the code: after issue 2, burn 0.5, the edit
-`maxSupply := 1` is accepted with 1.5 circulating -/
-theorem not_CapAlways : ¬ CapAlways := by
-  intro hall
-  have hg : Good witnessState := good_genesis _ _ _
-    (by intro d hd; simp [Bank.supplyOf, AMap.getD, AMap.get?, Ne.symm hd])
-    (by decide)
-  have hc := hall witnessState witnessOps hg (by intro op hop; simp [witnessOps] at hop; rcases hop with rfl | rfl | rfl <;> rfl)
-  obtain ⟨h1, h2⟩ := witness_outcome
-  cases ht : AMap.get? (run witnessState witnessOps).tokens "abc" with
-  | none => rw [ht] at h2; cases h2
-  | some t =>
-    rw [ht] at h2
-    simp only [Option.map, Option.some.injEq, Prod.mk.injEq] at h2
-    have := hc "abc" t ht
-    rw [h2.1, h2.2.1, h2.2.2, h1] at this
-    revert this; decide
+/-- **C09(3c)** the supply clause in full: the circulating amount never exceeds the declared
+maximum through issue, mint, edit and burn (and hand-over), over all histories -/
+theorem cap_always : CapAlways := fun s ops h hops => (cap_run s ops h hops).cap
 
 /-- "the maximum can never be lowered below what circulates", for one edit -/
 def MaxNeverBelowCirculating : Prop :=
@@ -696,51 +658,34 @@ def MaxNeverBelowCirculating : Prop :=
     step s (.edit owner symbol name max mintable) = .ok s' → 0 < max →
     AMap.get? s'.tokens symbol = some t' → supplyOf s' t'.minUnit ≤ max * pow10 t'.scale
 
-theorem not_MaxNeverBelowCirculating : ¬ MaxNeverBelowCirculating := by
-  intro hall
-  have h2 : ∃ s1, step (run witnessState (witnessOps.take 2)) (.edit "A0" "abc" "[do-not-modify]" 1 "") = .ok s1 ∧
-      supplyOf s1 "uabc" = 15 ∧
-      (AMap.get? s1.tokens "abc").map (fun t => (t.minUnit, t.scale)) = some ("uabc", 1) := by
-    cases hs : step (run witnessState (witnessOps.take 2)) (.edit "A0" "abc" "[do-not-modify]" 1 "") with
-    | error e =>
-      have : (match step (run witnessState (witnessOps.take 2)) (.edit "A0" "abc" "[do-not-modify]" 1 "") with
-              | .ok _ => true | .error _ => false) = true := by decide +kernel
-      rw [hs] at this; cases this
-    | ok s1 =>
-      refine ⟨s1, rfl, ?_⟩
-      have : (match step (run witnessState (witnessOps.take 2)) (.edit "A0" "abc" "[do-not-modify]" 1 "") with
-              | .ok s1 => decide (supplyOf s1 "uabc" = 15 ∧
-                  (AMap.get? s1.tokens "abc").map (fun t => (t.minUnit, t.scale)) = some ("uabc", 1))
-              | .error _ => false) = true := by decide +kernel
-      rw [hs] at this; exact of_decide_eq_true this
-  obtain ⟨s1, hs, hsup, htok⟩ := h2
-  cases ht : AMap.get? s1.tokens "abc" with
-  | none => rw [ht] at htok; cases htok
-  | some t =>
-    rw [ht] at htok
-    simp only [Option.map, Option.some.injEq, Prod.mk.injEq] at htok
-    have := hall _ s1 "A0" "abc" "[do-not-modify]" 1 "" t hs (by decide) ht
-    rw [htok.1, htok.2, hsup] at this
-    revert this; decide
-
-/-- **C09(3c)** the strongest true form: an accepted edit that sets a maximum leaves the
-circulating amount within it whenever that amount is a whole number of main units -/
-theorem edit_max_partial (s s' : State) (owner symbol name : String) (max : Nat) (mintable : String) (t : Token)
-    (hs : step s (.edit owner symbol name max mintable) = .ok s') (hmax : 0 < max)
-    (ht : AMap.get? s.tokens symbol = some t) (hwhole : supplyOf s t.minUnit % pow10 t.scale = 0) :
-    ∃ t', AMap.get? s'.tokens symbol = some t' ∧ t'.minUnit = t.minUnit ∧ t'.scale = t.scale ∧
-      t'.maxSupply = max ∧ supplyOf s' t'.minUnit ≤ max * pow10 t'.scale := by
-  obtain ⟨t0, ht0, _, hm, rfl⟩ := edit_ok hs
-  rw [ht] at ht0; cases ht0
-  refine ⟨edited t name max mintable, AMap.get?_set_self _ _ _, rfl, rfl, by simp [edited, hmax], ?_⟩
+/-- **C09(3d)** an accepted edit that sets a maximum leaves the circulating amount within it — in
+every state, whatever fraction of a main unit circulates -/
+theorem max_never_below_circulating : MaxNeverBelowCirculating := by
+  intro s s' owner symbol name max mintable t' hs hmax ht'
+  obtain ⟨t, ht, _, hm, rfl⟩ := edit_ok hs
+  simp only at ht'
+  rw [AMap.get?_set_self] at ht'
+  cases ht'
   show supplyOf s t.minUnit ≤ max * pow10 t.scale
-  have hq : supplyOf s t.minUnit / pow10 t.scale ≤ max := by
-    have : ¬ (max < supplyOf s t.minUnit / pow10 t.scale) := fun hc => hm ⟨hmax, hc⟩
-    omega
-  have hdm := Nat.div_add_mod (supplyOf s t.minUnit) (pow10 t.scale)
-  rw [hwhole, Nat.add_zero] at hdm
-  rw [← hdm, Nat.mul_comm]
-  exact Nat.mul_le_mul_right _ hq
+  have : ¬ (max * pow10 t.scale < supplyOf s t.minUnit) := fun hc => hm ⟨hmax, hc⟩
+  omega
+
+/-- regression example (the former witness of F-tok-1): issue 2.0 at scale 1, burn 0.5, then
+`maxSupply := 1` -/
+def witnessState : State :=
+  genesis { bal := [(("A0", "stake"), 100000)], supply := [("stake", 100000)] } {} {}
+
+def witnessOps : List Op :=
+  [.issue "A0" "abc" "n1" "uabc" 1 2 2 false, .burn "A0" "uabc" 5, .edit "A0" "abc" "[do-not-modify]" 1 ""]
+
+/-- … the edit is now rejected: 1.5 circulates and the maximum is still 2 -/
+theorem former_witness_rejected :
+    supplyOf (run witnessState witnessOps) "uabc" = 15 ∧
+    (AMap.get? (run witnessState witnessOps).tokens "abc").map (fun t => (t.minUnit, t.maxSupply, t.scale))
+      = some ("uabc", 2, 1) ∧
+    (match step (run witnessState (witnessOps.take 2)) (.edit "A0" "abc" "[do-not-modify]" 1 "") with
+     | .ok _ => false | .error _ => true) = true := by
+  decide +kernel
 
 /-! ### 4. Burned amounts are tallied exactly -/
 
@@ -910,5 +855,203 @@ theorem issue_fee_split (s s' : State) (owner symbol name minUnit : String) (sca
     exact he.fc hp1 hp2
   · rw [supplyOf_mint_other _ _ _ _ _ (Ne.symm hne)]
     exact he.sup_self
+
+/-! ### 6. The owner index follows ownership -/
+
+theorem ownidx_of_same {s s' : State} (h : OwnIdx s) (e1 : s'.tokens = s.tokens) (e2 : s'.owners = s.owners) :
+    OwnIdx s' := by
+  constructor
+  · intro sym t ht; rw [e1] at ht; rw [e2]; exact h.1 sym t ht
+  · intro o sym v hv; rw [e2] at hv; rw [e1]; exact h.2 o sym v hv
+
+/-- replacing a token by one with the same owner keeps the index -/
+theorem ownidx_modify {s s' : State} {sym : String} {t t' : Token} (h : OwnIdx s)
+    (ht : AMap.get? s.tokens sym = some t) (ho : t'.owner = t.owner)
+    (e1 : s'.tokens = AMap.set s.tokens sym t')
+    (e2 : ∀ k, AMap.get? s'.owners k = AMap.get? s.owners k) : OwnIdx s' := by
+  constructor
+  · intro sym2 t2 ht2
+    rw [e1, get?_set] at ht2
+    rw [e2]
+    by_cases hk : sym = sym2
+    · subst hk
+      simp only [if_true, Option.some.injEq] at ht2
+      subst ht2
+      rw [ho]; exact h.1 sym t ht
+    · simp only [hk, if_false] at ht2
+      exact h.1 sym2 t2 ht2
+  · intro o sym2 v hv
+    rw [e2] at hv
+    obtain ⟨hv', t2, ht2, ho2⟩ := h.2 o sym2 v hv
+    refine ⟨hv', ?_⟩
+    rw [e1, get?_set]
+    by_cases hk : sym = sym2
+    · subst hk
+      rw [ht] at ht2; cases ht2
+      exact ⟨t', by simp, by rw [ho]; exact ho2⟩
+    · exact ⟨t2, by simp [hk, ht2], ho2⟩
+
+/-- adding a token with a new symbol together with its index entry -/
+theorem ownidx_add {s s' : State} {t : Token} {sym : String} (h : OwnIdx s)
+    (hn : AMap.get? s.tokens sym = none)
+    (e1 : s'.tokens = AMap.set s.tokens sym t)
+    (e2 : s'.owners = AMap.set s.owners (t.owner, sym) sym) : OwnIdx s' := by
+  constructor
+  · intro sym2 t2 ht2
+    rw [e1, get?_set] at ht2
+    rw [e2, get?_set]
+    by_cases hk : sym = sym2
+    · subst hk
+      simp only [if_true, Option.some.injEq] at ht2
+      subst ht2
+      simp
+    · simp only [hk, if_false] at ht2
+      have : (t.owner, sym) ≠ (t2.owner, sym2) := by intro e; exact hk (congrArg Prod.snd e)
+      simp only [this, if_false]
+      exact h.1 sym2 t2 ht2
+  · intro o sym2 v hv
+    rw [e2, get?_set] at hv
+    rw [e1]
+    by_cases hk : (t.owner, sym) = (o, sym2)
+    · simp only [hk, if_true, Option.some.injEq] at hv
+      cases hk
+      exact ⟨hv.symm, t, by simp [get?_set], rfl⟩
+    · simp only [hk, if_false] at hv
+      obtain ⟨hv', t2, ht2, ho2⟩ := h.2 o sym2 v hv
+      have hne : sym ≠ sym2 := by intro e; rw [e, ht2] at hn; cases hn
+      exact ⟨hv', t2, by rw [get?_set]; simp [hne, ht2], ho2⟩
+
+theorem TM_ne_empty : TM ≠ "" := by decide
+
+/-- **C09(6a)** every accepted operation keeps the owner index in step with the token table: a
+hand-over removes the old owner's entry and adds the new owner's -/
+theorem ownidx_step (s s' : State) (op : Op) (hwf : WF s) (h : OwnIdx s) (hs : step s op = .ok s') : OwnIdx s' := by
+  cases op with
+  | issue owner symbol name minUnit scale init max mintable =>
+    obtain ⟨_, _, s1, h1, hc1, _, rfl⟩ := issue_ok hs
+    obtain ⟨_, _, _, _, _, _, _, rfl⟩ := deductFee_ok h1
+    exact ownidx_add (t := issuedToken owner symbol name minUnit scale init max mintable) h (contains_false hc1) rfl rfl
+  | edit owner symbol name max mintable =>
+    obtain ⟨t, ht, _, _, rfl⟩ := edit_ok hs
+    exact ownidx_modify (t' := edited t name max mintable) h ht rfl rfl (fun _ => rfl)
+  | mint owner to denom amount =>
+    obtain ⟨_, _, sym, s1, _, h1, h2⟩ := mint_ok hs
+    obtain ⟨_, _, _, _, _, _, _, rfl⟩ := deductFee_ok h1
+    obtain ⟨_, _, _, _, _, rfl⟩ := mintChecked_ok h2
+    exact ownidx_of_same h rfl rfl
+  | burn sender denom amount =>
+    obtain ⟨_, _, b, _, rfl⟩ := burn_step_ok hs
+    exact ownidx_of_same h rfl rfl
+  | transferOwner src dst symbol =>
+    obtain ⟨_, t, ht, ho, rfl⟩ := transferOwner_ok hs
+    constructor
+    · intro sym2 t2 ht2
+      simp only at ht2 ⊢
+      rw [get?_set] at ht2
+      rw [get?_set]
+      by_cases hk : symbol = sym2
+      · subst hk
+        simp only [if_true, Option.some.injEq] at ht2
+        subst ht2
+        simp
+      · simp only [hk, if_false] at ht2
+        have n1 : (dst, symbol) ≠ (t2.owner, sym2) := by intro e; exact hk (congrArg Prod.snd e)
+        have n2 : (src, symbol) ≠ (t2.owner, sym2) := by intro e; exact hk (congrArg Prod.snd e)
+        simp only [n1, if_false]
+        rw [get?_erase_other _ _ _ n2]
+        exact h.1 sym2 t2 ht2
+    · intro o sym2 v hv
+      simp only at hv ⊢
+      rw [get?_set] at hv
+      by_cases hk : (dst, symbol) = (o, sym2)
+      · simp only [hk, if_true, Option.some.injEq] at hv
+        cases hk
+        exact ⟨hv.symm, { t with owner := dst }, by simp [get?_set], rfl⟩
+      · simp only [hk, if_false] at hv
+        by_cases hk2 : (src, symbol) = (o, sym2)
+        · rw [← hk2, get?_erase_self] at hv; cases hv
+        · rw [get?_erase_other _ _ _ hk2] at hv
+          obtain ⟨hv', t2, ht2, ho2⟩ := h.2 o sym2 v hv
+          refine ⟨hv', ?_⟩
+          have hne : symbol ≠ sym2 := by
+            intro e
+            subst e
+            rw [ht] at ht2; cases ht2
+            apply hk2
+            rw [ho, ho2]
+          exact ⟨t2, by rw [get?_set]; simp [hne, ht2], ho2⟩
+  | swapFee sender to denom amount =>
+    obtain ⟨_, tb, target, ratio, tm, b, m, _, _, _, _, h2⟩ := swapFee_ok hs
+    obtain ⟨_, _, _, bk, _, rfl⟩ := swapMoves_ok h2
+    exact ownidx_of_same h rfl rfl
+  | deploy authority name symbol minUnit scale =>
+    obtain ⟨t, hb, hc, rfl⟩ := deploy_ok hs
+    rcases buildErc20_cases hwf hb with ⟨e1, _⟩ | ⟨e1, _, _, _, _⟩
+    · have hidx := h.1 t.symbol t e1
+      refine ownidx_modify (t' := { t with contract := s.nonce + 1 }) h e1 rfl rfl ?_
+      intro k
+      simp only
+      split
+      · rfl
+      · rw [get?_set]
+        by_cases hk : (t.owner, t.symbol) = k
+        · subst hk; simp [hidx]
+        · simp [hk]
+    · -- a new ICS20 token is owned by the module account
+      have hown : t.owner ≠ "" := by
+        unfold buildErc20Token at hb
+        split at hb
+        · split at hb
+          · cases hb
+          · rename_i t' ht'
+            cases hb
+            obtain ⟨_, e2, _⟩ := tokenByMinUnit_wf hwf ht'
+            rw [e2] at e1; cases e1
+        · split at hb
+          · cases hb
+          · cases hb; exact TM_ne_empty
+      refine ownidx_add (t := { t with contract := s.nonce + 1 }) h e1 rfl ?_
+      simp [hown]
+  | swapToErc20 sender receiver denom amount =>
+    obtain ⟨_, _, t, b, _, _, _, rfl⟩ := swapTo_ok hs
+    exact ownidx_of_same h rfl rfl
+  | swapFromErc20 sender receiver denom amount =>
+    obtain ⟨_, _, _, t, _, _, _, rfl⟩ := swapFrom_ok hs
+    exact ownidx_of_same h rfl rfl
+  | hookSwap src c to amount =>
+    obtain ⟨_, _, h3⟩ := hook_ok hs
+    rcases h3 with ⟨rfl, _⟩ | ⟨sym, t, _, _, _, _, rfl⟩
+    · exact ownidx_of_same h rfl rfl
+    · exact ownidx_of_same h rfl rfl
+  | evmFault mode => rw [evmFault_ok hs]; exact ownidx_of_same h rfl rfl
+  | updateParams authority p => rw [(updateParams_ok hs).2]; exact ownidx_of_same h rfl rfl
+
+theorem ownidx_genesis (bank : Bank) (p : Params) (env : Env) : OwnIdx (genesis bank p env) := by
+  constructor
+  · intro sym t ht
+    simp only [genesis, AMap.get?] at ht
+    split at ht
+    · rename_i hk
+      cases ht; subst hk
+      simp [genesis, AMap.get?, nativeToken]
+    · cases ht
+  · intro o sym v hv
+    simp only [genesis, AMap.get?] at hv
+    split at hv
+    · rename_i hk
+      cases hv; cases hk
+      exact ⟨rfl, nativeToken, by simp [genesis, AMap.get?], rfl⟩
+    · cases hv
+
+/-- **C09(6b)** over every history from genesis the owner index lists exactly the current owners -/
+theorem ownidx_run (s : State) (ops : List Op) (hwf : WF s) (h : OwnIdx s) : OwnIdx (run s ops) := by
+  induction ops generalizing s with
+  | nil => exact h
+  | cons op rest ih =>
+    refine ih (apply s op) (wf_apply s op hwf) ?_
+    unfold apply
+    cases hs : step s op with
+    | ok s' => exact ownidx_step s s' op hwf h hs
+    | error e => exact h
 
 end Irismod.Props.C09
